@@ -474,6 +474,47 @@ func seqOp(elem string, objs *[]*seqObj, p []string) (ans string) {
 			r = a.t.CloneArrayTuple(atoi(args[1]))
 		}
 		return add(r, a.impl)
+	case "vsl":
+		// `[]` with a range / Tuple#slice through the registered method
+		need(4)
+		o := obj(args[0])
+		iv := func(s string) value.Value { return value.SmallInt(atoi(s)).ToValue() }
+		var rng value.Value
+		switch args[1] {
+		case "cc":
+			rng = value.Ref(value.NewClosedRange(iv(args[2]), iv(args[3])))
+		case "oc":
+			rng = value.Ref(value.NewLeftOpenRange(iv(args[2]), iv(args[3])))
+		case "co":
+			rng = value.Ref(value.NewRightOpenRange(iv(args[2]), iv(args[3])))
+		case "oo":
+			rng = value.Ref(value.NewOpenRange(iv(args[2]), iv(args[3])))
+		case "bo":
+			rng = value.Ref(value.NewBeginlessOpenRange(iv(args[3])))
+		case "bc":
+			rng = value.Ref(value.NewBeginlessClosedRange(iv(args[3])))
+		case "eo":
+			rng = value.Ref(value.NewEndlessOpenRange(iv(args[2])))
+		case "ec":
+			rng = value.Ref(value.NewEndlessClosedRange(iv(args[2])))
+		default:
+			panic("harness: range kind")
+		}
+		r, err := collThread().CallMethodByName(value.ToSymbol("slice"), o.t.ToValue(), rng)
+		if !err.IsUndefined() {
+			return seqErr(err)
+		}
+		res, ok := r.SafeAsReference().(value.ArrayTuple)
+		if !ok {
+			return "err:NotASequence"
+		}
+		// the slice of a list must be a list, of a tuple a tuple
+		_, srcList := o.t.(value.ArrayList)
+		_, resList := res.(value.ArrayList)
+		if srcList != resList {
+			return "err:WrongKind"
+		}
+		return add(res, implOf(r))
 	case "vrem":
 		need(2)
 		o := obj(args[0])
